@@ -497,13 +497,22 @@ def run(ck, prog, ctx):
             _reach_w[r] = tb.kind in ("Fn", "AssocFn") and not (tb.exported or tb.reachable or tb.impl_trait) and bool(prog.reachable_bodies([r]) & cache_writers)
         return _reach_w[r]
     ck.ob("PHASE", "cache-writers", bool(cache_writers), "writers of HpoTermInternal.all_parents: %s" % sorted(x.rsplit("::", 1)[-1] for x in cache_writers))
+    cats = {cat.id} if cat is not None else set()
+    if cat is not None and cache_writers and not any(to_writer(t_) for fb_ in prog.family(cat) for _, t_ in fb_.calls()):
+        # connect_all_terms may hand its whole work to a sibling of the same impl (a new fallible `try_connect_all_terms` that it calls and
+        # unwraps): that sibling is then a second spelling of the one transition, and the body the rules below read
+        sib_ = [tg_ for tg_ in (prog.bodies.get(t_.callee.res or "") for _, t_ in cat.calls()) if tg_ is not None and tg_.kind == "AssocFn" and not tg_.impl_trait and tg_.id != cat.id
+                and tg_.impl_self == cat.impl_self and prog.reachable_bodies([tg_.id]) & cache_writers]
+        if len({x_.id for x_ in sib_}) == 1 and not cat.natural_loops():
+            cats.add(sib_[0].id)
+            cat = sib_[0]
     if cat is not None and cache_writers:
         cg = prog.callgraph
         # public entry points that reach a writer without passing through connect_all_terms
         bad = []
         for e in prog.production():
-            if e.kind in ("Fn", "AssocFn") and e.reachable and e.id != cat.id:
-                r = prog.reachable_bodies([e.id], stop={cat.id})
+            if e.kind in ("Fn", "AssocFn") and e.reachable and e.id not in cats:
+                r = prog.reachable_bodies([e.id], stop=cats)
                 hit = r & cache_writers
                 if hit:
                     bad.append((e, sorted(hit)))
@@ -520,7 +529,7 @@ def run(ck, prog, ctx):
             for pos, s in b.stmts():
                 if s.k == "assign" and s.rv["k"] == "agg" and s.rv.get("adt") == "ontology::builder::Builder" and "ConnectedTerms" in b.locals[s.place.local]["s"] and b.name != "transition_state":
                     trans.append((b, s))
-        okt = trans and all(b.id == cat.id for b, _ in trans)
+        okt = trans and all(b.id in cats for b, _ in trans)
         ck.ob("PHASE", "transition", bool(okt), "the AllTerms -> ConnectedTerms transition is performed by %s" % sorted({b.short for b, _ in trans}), where=cat.where())
 
     if cat is not None:
@@ -700,7 +709,32 @@ def run(ck, prog, ctx):
                     continue  # any / all / find / position ... over (or capturing) the closure set: a test, not an accumulation
                 acc.add(bi)
             if acc:
-                check_every_element(ck, "PHASE", "cache/%s/parents-loop/%d" % (wb_.short, i), wb_, lp, acc, "add the parent's ancestors to the set", "the direct parents")
+                # `if !res.insert(parent) { continue }` / `if res.contains(parent) { continue }` on the set that is being accumulated: the parent is
+                # skipped because it is ALREADY a member (an ancestor of an earlier parent).  That its own ancestors are then members as well is a
+                # property of the data (closed sets), not of the loop: undecided.  (Leaving the LOOP on that edge is judged by the /all rule.)
+                from engines import user_root_locals as _url3, positive_edges as _pe3
+                acc_roots = set()
+                for abi in acc:
+                    at_ = wb_.blocks[abi].term
+                    if at_.k == "call":
+                        if at_.dest is not None and at_.dest.is_local():
+                            acc_roots.add(at_.dest.local)
+                        for a_ in at_.args[:1]:
+                            if a_.place is not None:
+                                acc_roots |= set(_url3(wb_, pvn, a_))
+                member_targets = set()
+                gline = None
+                for vbi, vt in wb_.calls():
+                    if vbi in lp["blocks"] and vt.callee.method in ("insert", "contains") and vt.args and vt.args[0].place is not None and set(_url3(wb_, pvn, vt.args[0])) & acc_roots:
+                        pos_ = _pe3(wb_, pvn, vbi)
+                        if vt.callee.method == "contains":
+                            member_targets |= {tg_ for _, tg_ in pos_}
+                        else:
+                            member_targets |= {tg_ for sb_, _ in pos_ for tg_ in wb_.succ[sb_] if (sb_, tg_) not in pos_}
+                        gline = vt.line
+                member_targets = {tg_ for tg_ in member_targets if tg_ in lp["blocks"] and tg_ not in acc}
+                check_every_element(ck, "PHASE", "cache/%s/parents-loop/%d" % (wb_.short, i), wb_, lp, acc, "add the parent's ancestors to the set", "the direct parents",
+                                    excused=(member_targets, "%s skips a direct parent that is already a member of the set being accumulated (line %s): whether its ancestors are then members too is a property of the cached sets, not decided here" % (wb_.short, gline)))
 
     # ------------------------------------------------------------------ ROLE: the cache write
     for wid in sorted(cache_writers):
